@@ -23,7 +23,7 @@ use crate::props::Prop;
 use mwv_core::choice::{unhex, Choices};
 use mwv_core::numeric::*;
 use num::bigint::BigInt;
-use num::{BigRational, Integer, One, Signed, Zero};
+use num::{BigRational, Integer, One, Signed, ToPrimitive, Zero};
 use serde_json::{json, Value};
 use std::cell::RefCell;
 
@@ -201,18 +201,16 @@ fn gen_case(bytes: &[u8]) -> Case {
             let base = gen_exact(&mut c);
             let es: [i64; 12] = [0, 1, 2, 3, 4, 7, 16, 31, 32, 33, 63, 64];
             let mut e = if c.flip() { *c.pick(&es) } else { c.range(0, 64) };
-            // known finding (32-bit power overflow of rational bases, a panic in the checked build):
-            // exponents that overflow are kept at a probe rate so that fresh VMs do not dominate the run
-            if !base.is_integer() && e >= 2 {
-                let fits = |e: i64| {
-                    let mut r = BigRational::one();
-                    for _ in 0..e {
-                        r *= &base;
+            // (exponents whose exact power leaves the 32-bit rationals used to be kept at a probe
+            // rate while that overflow was a listed finding; it is repaired, so they run freely.)
+            // Now and then a large exponent on a base close to 1.
+            if !base.is_integer() && c.chance(24) {
+                let r = base.to_f64().map(|f| f.abs()).unwrap_or(0.0);
+                if r > 0.5 && r < 2.0 {
+                    let big = *c.pick(&[100i64, 647, 700, 1000][..]);
+                    if (big as f64 * r.log10()).abs() < 290.0 {
+                        e = big;
                     }
-                    fits_rational32(&r)
-                };
-                if !fits(e) && !c.chance(32) {
-                    e = if fits(2) { 2 } else { 1 };
                 }
             }
             vec![base, rat(e, 1)]
@@ -620,7 +618,7 @@ impl Prop for C08 {
         "C08"
     }
     fn rule(&self) -> &'static str {
-        "grid: every pair of boundary values (0, +-1, +-2, everything within 2 of +-2^31, +-2^32, +-2^53, +-2^63, +-2^64, and rationals with numerator/denominator at the edge of the 32-bit range) under every binary operation, every boundary value under every unary operation and expt with exponents {0,1,2,3,31,32,33,62,63,64}, each in every combination of internal representations; random: palette operands (boundary values, random 32/64/128/256-bit integers, reduced rationals, operands chosen so that the result lands on a boundary), <=12 representation combinations per case. An evaluated combination is non-trivial when an operand or the true result lies within 2 of +-2^31 or +-2^63 (for rationals: numerator or denominator), or the operands have different representations; distinct by (operation, representation tuple, boundary class of each operand and of the true result)."
+        "grid: every pair of boundary values (0, +-1, +-2, everything within 2 of +-2^31, +-2^32, +-2^53, +-2^63, +-2^64, and rationals with numerator/denominator at the edge of the 32-bit range) under every binary operation, every boundary value under every unary operation and expt with exponents {0,1,2,3,31,32,33,62,63,64} (and bases close to 1 with exponents up to 2000), each in every combination of internal representations; random: palette operands (boundary values, random 32/64/128/256-bit integers, reduced rationals, operands chosen so that the result lands on a boundary), <=12 representation combinations per case. An evaluated combination is non-trivial when an operand or the true result lies within 2 of +-2^31 or +-2^63 (for rationals: numerator or denominator), or the operands have different representations; distinct by (operation, representation tuple, boundary class of each operand and of the true result)."
     }
     fn assumptions(&self) -> Vec<&'static str> {
         vec![
@@ -664,6 +662,18 @@ impl Prop for C08 {
                 for a in &g {
                     for e in exps {
                         run_grid(op, vec![a.clone(), rat(e, 1)]);
+                    }
+                }
+                // bases close to 1 under large exponents: the power of the numerator or of the
+                // denominator alone leaves the double range long before the quotient does
+                let near_one: [(i64, i64); 9] =
+                    [(3, 2), (-3, 2), (4, 3), (2, 3), (1025, 1024), (1024, 1025), (2147483647, 2147483646), (2147483646, 2147483647), (-2147483647, 2147483646)];
+                for (n, d) in near_one {
+                    for e in [34i64, 100, 647, 700, 1000, 2000] {
+                        let mag = (e as f64) * ((n.abs() as f64) / (d as f64)).log10();
+                        if mag.abs() < 290.0 {
+                            run_grid(op, vec![rat(n, d), rat(e, 1)]);
+                        }
                     }
                 }
             } else {
